@@ -69,6 +69,7 @@ class FS(Env):
         self.crash_at = None  # op index after which the process dies
         self.fault_at = None  # op index that raises OSError
         self.dump_fault = False  # the serialiser raises RuntimeError (concurrent mutation)
+        self.deny_write = False  # os.access(..., W_OK) answers False
         self.crashed = False
         self.contract = contract or {"json": [ValueError], "pickle": [EOFError]}
         self.snapshot = None  # callable: sensors dict -> persisted projection
@@ -160,6 +161,8 @@ class FS(Env):
         self.after(i)
 
     def access(self, a, k):
+        if self.deny_write and len(a) > 1 and a[1] == os.W_OK:
+            return False  # directory / file not writable right now (transient)
         return True
 
     def isfile(self, a, k):
